@@ -1071,6 +1071,25 @@ def check_single_consumer(ctx, R, classes):
                     where = ctx.where(fn, n.lineno)
             if once > 1:
                 ok, detail = False, 'consumer %s is scheduled %d times in __init__' % (drain.name, once)
+            # a failing element does not end the consumer: where the coroutine catches what the per-element work raises, control
+            # returns to the loop (the handler sits inside the loop, not around it)
+            dead, n_h = None, 0
+            for st, status in ctx.paths(drain, cls):
+                evs = st.events
+                for i, e in enumerate(evs):
+                    if e.kind != 'HANDLED' or e.depth != 0:
+                        continue
+                    if not any(x.kind == 'ITER' and x.depth == 0 for x in evs[:i]):
+                        continue
+                    n_h += 1
+                    back = any(x.depth == 0 and (x.kind in ('ITER', 'LOOPCUT') or (x.kind == 'LOOPEXIT' and x.c == 'cond')) for x in evs[i + 1:])
+                    if not back:
+                        dead = evs
+            if n_h:
+                R.ob('SINGLE-CONSUMER', con, 'survives-a-failing-element', dead is None,
+                     'after catching the exception of one element the consumer %s does not return to its loop (the handler is '
+                     'around the loop, not inside it): one failing element ends the only consumer, everything queued behind it '
+                     'is never delivered' % drain.name, ctx.where(drain, drain.node.lineno), fmt_path(dead) if dead else None, n_h)
             # a consumer that is started once, from the constructor, is never started again: it must never end (a loop header
             # that tests node state - `while self.upstreams:` - lets it die during a temporary disconnect)
             if once == 1 and not any((cls.name, fn_.name) in SINGLE_CONSUMER_TABLE for fn_, n_, via in expanded):
@@ -1713,6 +1732,16 @@ def check_cancel_only_timers(ctx, R, modules=('streamz.core', 'streamz.sinks', '
         cls = fn.cls
         # fields of the class that hold timer handles: every store into them (item or whole) is a timer maker's result
         timer_fields, other_fields = set(), set()
+        def timer_value(g, v):
+            # a timer maker's result, directly or through a local bound to nothing else
+            if isinstance(v, ast.Call) and isinstance(v.func, ast.Attribute) and v.func.attr in TIMER_MAKERS:
+                return True
+            if isinstance(v, ast.Name):
+                defs = [a_.value for a_ in own_nodes(g.node) if isinstance(a_, ast.Assign)
+                        and any(isinstance(t_, ast.Name) and t_.id == v.id for t_ in a_.targets)]
+                return bool(defs) and all(isinstance(d_, ast.Call) and isinstance(d_.func, ast.Attribute)
+                                          and d_.func.attr in TIMER_MAKERS for d_ in defs)
+            return False
         for g in [f for f in M.all_funcs() if f.cls is cls]:
             for st_ in own_nodes(g.node):
                 if isinstance(st_, ast.Assign):
@@ -1721,7 +1750,7 @@ def check_cancel_only_timers(ctx, R, modules=('streamz.core', 'streamz.sinks', '
                         if f is None:
                             continue
                         v = st_.value
-                        if isinstance(v, ast.Call) and isinstance(v.func, ast.Attribute) and v.func.attr in TIMER_MAKERS:
+                        if timer_value(g, v):
                             timer_fields.add(f)
                         elif isinstance(t, ast.Subscript) or not (isinstance(v, (ast.Dict, ast.List, ast.Constant)) or (
                                 isinstance(v, ast.Call) and src(v.func) in ('dict', 'list', 'defaultdict', 'OrderedDict'))):
@@ -1730,6 +1759,18 @@ def check_cancel_only_timers(ctx, R, modules=('streamz.core', 'streamz.sinks', '
             n += 1
             recv = c.func.value
             f = self_field(recv)
+            if f is None and isinstance(recv, ast.Name):
+                # a local taken out of the field:  handle = self._callbacks.pop(key) / self._callbacks[key] / .get(key)
+                defs = [a_.value for a_ in own_nodes(fn.node) if isinstance(a_, ast.Assign)
+                        and any(isinstance(t_, ast.Name) and t_.id == recv.id for t_ in a_.targets)]
+                fs = set()
+                for d_ in defs:
+                    if isinstance(d_, ast.Call) and isinstance(d_.func, ast.Attribute) and d_.func.attr in ('pop', 'get'):
+                        fs.add(self_field(d_.func.value))
+                    else:
+                        fs.add(self_field(d_) if isinstance(d_, (ast.Subscript, ast.Attribute)) else None)
+                if len(fs) == 1 and None not in fs:
+                    f = fs.pop()
             ok = f is not None and f in timer_fields and f not in other_fields
             R.ob('CANCEL-ONLY-TIMERS', ctx.construct(fn), 'cancel@%d' % sites.index(c), ok,
                  '%s.cancel(): the receiver is not a stored timer handle - cancelling a task / future aborts the element it is '
